@@ -110,7 +110,7 @@ Qed.
 
 (** * the reader on the text of a well-formed table *)
 Theorem csv_fidelity tid file text header rows p :
-  strip text = render header rows -> wf_table header rows p ->
+  csv_strip text = render header rows -> wf_table header rows p ->
   exists t times,
     csv_parse tid file text = POk t /\
     (* one time stamp per row: the converted time cell, in row order *)
@@ -196,17 +196,17 @@ Proof.
   cbn [append lstrip]. rewrite Hc. apply IH, Hw.
 Qed.
 
-(** the text starts and ends with a character that is not white space *)
+(** the text does not start with a line break and does not end with white space *)
 Definition edges_ok (s : string) : bool :=
-  match s with String a _ => negb (is_pyspace a) | EmptyString => false end &&
+  match s with String a _ => negb (is_crlf a) | EmptyString => false end &&
   match srev s with String z _ => negb (is_pyspace z) | EmptyString => false end.
 
-Lemma strip_trailing s w : edges_ok s = true -> sall is_pyspace w = true -> strip (s ++ w) = s.
+Lemma strip_trailing s w : edges_ok s = true -> sall is_pyspace w = true -> csv_strip (s ++ w) = s.
 Proof.
   unfold edges_ok. intros He Hw. apply andb_prop in He as [H1 H2].
-  unfold strip, rstrip.
-  assert (L : lstrip (s ++ w) = s ++ w).
-  { destruct s as [|a s]; [discriminate|]. cbn [append lstrip]. destruct (is_pyspace a); [discriminate|reflexivity]. }
+  unfold csv_strip, rstrip.
+  assert (L : lstrip_lines (s ++ w) = s ++ w).
+  { destruct s as [|a s]; [discriminate|]. cbn [append lstrip_lines]. destruct (is_crlf a); [discriminate|reflexivity]. }
   rewrite L, srev_append, lstrip_spaces by (rewrite sall_srev; exact Hw).
   destruct (srev s) as [|z r] eqn:E; [discriminate|]. cbn [lstrip]. destruct (is_pyspace z); [discriminate|].
   rewrite <- E. apply srev_involutive.
